@@ -167,6 +167,7 @@ PROPS = {
         assumptions=["SHA-256 is a parameter of the model (collision resistance is named where used, never proved)", "half- and single-precision floats, indefinite lengths and CBOR 'undefined' are rejected by the model's decoder; go-ipld-prime decodes them and the canonical re-encoding check then rejects them, so acceptance agrees"],
     ),
     "C16": dict(
+        tie=["Ucan.Props.Tie.Did"],
         props_module="Ucan.Props.C16",
         streams=["did"],
         technique="Lean 4 proofs over a model of Parse/String/PubKey/FromPubKey; base-58 is a model of its own with decode∘encode = id proved by induction on positional notation (no multibase hypothesis left), the per-codec key (un)marshallers are parameters: varint round trip (induction), key→DID→text→DID→key identity, DID equality ⇔ key equality, canonical-identifier theorem, rejection theorems, and a decide-checked inclusion between the multicodec tables REGENERATED from the source; tied by a differential run over keys of every algorithm and alternative encodings of their material with an independent crypto-library oracle",
